@@ -8,9 +8,10 @@ InputsAll == {
   I("httpspath", 443, "https", TRUE, ""), I("scheme62", 123, "s62", TRUE, ""), I("scheme63", 123, "s63", FALSE, ""),
   I("scheme300", 123, "s300", FALSE, ""), I("name253", 443, "https", TRUE, ""), I("name256", 443, "https", FALSE, ""),
   I("label64", 443, "https", FALSE, ""), I("svcbTooLong", 8443, "https", FALSE, ""),
+  I("hostdot", 443, "https", TRUE, ""), I("hostdotport", 8443, "https", TRUE, ""), I("httpsdot", 443, "https", TRUE, ""), I("foodotport", 123, "foo", TRUE, ""),
   I("ip4", 443, "https", TRUE, "lit4"), I("ip4port", 8443, "https", TRUE, "lit4"), I("ip6", 443, "https", TRUE, "lit6"),
   I("localhost", 443, "https", TRUE, "loopback") }
-InputsCore == { i \in InputsAll : i.id \in {"host", "host8443", "foo123", "host80"} }
+InputsCore == { i \in InputsAll : i.id \in {"host", "host8443", "foo123", "host80", "hostdotport", "httpsdot"} }
 HAll == {"absent", "nx", "servfail", "refused", "notauth", "aliasdot", "svcdot", "svct", "svcself", "unsorted", "poisoned", "cnamed", "loop", "chain1", "chain2",
          "chain3", "chain4", "chain6"}
 HSome == {"absent", "svct", "svcself", "chain2"}
